@@ -13,6 +13,8 @@ def owners(tag, kind):
         out.add("C15")
     if (kind in ("NACK", "FIR") and base in ("C02", "C03", "C04")) or (kind == "SLI" and tag in ("C02:roundtrip_value", "C04:value")):
         out.add("C16")
+    if kind == "DGRAM" and tag == "C04:valid_rejected":
+        out.update(("C06", "C07"))   # a datagram of well-formed frames must come back as one packet per frame, each of its registered kind
     if kind == "CP" and tag in ("C02:wf_rejected", "C05:marshalsize", "C05:marshalsize_vs_output", "C10:dest"):
         out.add("C11")
     return out
@@ -29,9 +31,9 @@ WIRE_NOTE = "McWire enumerates every value of the star domains of spec/Domain.tl
 
 prop("C01", lambda t, s: [("mc", "Mc", n(t, "McFaults", "McFaults2")), ("mc", "Mc", "McFaultsDev"), ("drive", "fuzz", n(t, 1500, 40000)), ("drive", "bigdec", n(t, 0, 1)), ("drive", "amplify", 0)],
      exhaustive_note="McFaults enumerates every first-order fault of spec/Faults.tla on the tiny domain; every faulted buffer goes to all 16 packet decoders, 7 sub-decoders and the datagram decoder; McFaultsDev does the same from the encodings of the deviating model (SLI with PT 205, CCFB num_reports n-1), which are the ones the library's SLI and CCFB decoders accept")
-prop("C02", lambda t, s: [("mc", "Mc", "McWire"), ("mc", "Mc", "McWirePairs"), ("drive", "rt", n(t, 1500, 60000)), ("drive", "rtlist", n(t, 300, 10000)), ("drive", "bigframes", n(t, 0, 1))], exhaustive_note=WIRE_NOTE)
-prop("C03", lambda t, s: [("mc", "Mc", "McWire"), ("mc", "Mc", "McWirePairs"), ("mc", "Mc", "McVariants"), ("drive", "rt", n(t, 1500, 60000)), ("drive", "bigframes", n(t, 0, 1))], exhaustive_note=WIRE_NOTE)
-prop("C05", lambda t, s: [("mc", "Mc", "McWire"), ("mc", "Mc", "McWirePairs"), ("drive", "rt", n(t, 1500, 60000)), ("drive", "rtlist", n(t, 300, 10000)), ("drive", "bigframes", n(t, 0, 1)), ("drive", "cprand", n(t, 200, 10000))], exhaustive_note=WIRE_NOTE)
+prop("C02", lambda t, s: [("mc", "Mc", "McWire"), ("mc", "Mc", "McWirePairs"), ("drive", "rt", n(t, 1500, 60000)), ("drive", "rtlist", n(t, 300, 10000)), ("drive", "bigframes", n(t, 0, 1)), ("drive", "recombine", n(t, 300, 10000))], exhaustive_note=WIRE_NOTE)
+prop("C03", lambda t, s: [("mc", "Mc", "McWire"), ("mc", "Mc", "McWirePairs"), ("mc", "Mc", "McVariants"), ("drive", "rt", n(t, 1500, 60000)), ("drive", "bigframes", n(t, 0, 1)), ("mc", "Mc", n(t, "McCompound", "McCompound4")), ("drive", "cprand", n(t, 200, 10000)), ("mc", "Mc", "McLoose"), ("drive", "errpaths", n(t, 200, 10000))], exhaustive_note=WIRE_NOTE)
+prop("C05", lambda t, s: [("mc", "Mc", "McWire"), ("mc", "Mc", "McWirePairs"), ("drive", "rt", n(t, 1500, 60000)), ("drive", "rtlist", n(t, 300, 10000)), ("drive", "bigframes", n(t, 0, 1)), ("drive", "cprand", n(t, 200, 10000)), ("mc", "Mc", "McLoose")], exhaustive_note=WIRE_NOTE)
 prop("C09", lambda t, s: [("mc", "Mc", n(t, "McFaults", "McFaults2")), ("mc", "Mc", "McFaultsDev"), ("drive", "fuzzdgram", n(t, 8000, 300000))],
      exhaustive_note="McFaults enumerates every first-order fault on the tiny domain and follows every accepted datagram through Marshal and a second decode")
 prop("C10", lambda t, s: [("mc", "Mc", "McWire"), ("mc", "Mc", "McWirePairs"), ("mc", "Mc", n(t, "McCompound", "McCompound4")), ("drive", "rt", n(t, 1500, 60000)), ("drive", "cprand", n(t, 300, 20000))],
@@ -51,7 +53,7 @@ prop("C06", lambda t, s: [("mc", "Datagram", n(t, "McDatagram", "McDatagram3")),
      exhaustive_note="McDgram enumerates every sequence of up to 2 (thorough: 3) pieces over the frame set of spec/Domain.tla (valid frames of every kind, raw frames, malformed frames, incomplete tails)")
 prop("C07", lambda t, s: [("mc", "Mc", n(t, "McDispatch", "McDispatchAll")), ("mc", "Mc", "McForeign"), ("mc", "Mc", "McWire"), ("drive", "fuzz", n(t, 600, 20000)), ("drive", "amplify", 0)],
      exhaustive_note="McDispatch enumerates 28 packet types (thorough: all 256) x 32 FMT values x 4 bodies; McForeign gives every star-domain encoding to all 16 decoders")
-prop("C08", lambda t, s: [("mc", "Mc", "McLimits"), ("drive", "limits", n(t, 1000, 60000))],
+prop("C08", lambda t, s: [("mc", "Mc", "McLimits"), ("drive", "limits", n(t, 1000, 60000)), ("mc", "Mc", "McLoose")],
      exhaustive_note="McLimits enumerates the values at, just below and just above every wire limit named by the property (LimitDom of spec/Domain.tla)")
 
 prop("C11", lambda t, s: [("mc", "Mc", n(t, "McCompound", "McCompound4")), ("drive", "cprand", n(t, 600, 30000))],
@@ -69,20 +71,20 @@ prop("C14", lambda t, s: [("mc", "RembAlg", n(t, "McRemb", "McRembThorough")), (
 prop("C15", lambda t, s: [("mc", "XrWalk", n(t, "McXr", "McXrThorough")), ("mc", "Mc", "McWireXr"), ("drive", "xrrand", n(t, 1500, 60000)), ("drive", "bigframes", n(t, 0, 1)), ("drive", "amplify", 0)],
      exhaustive_note="McXr enumerates every sequence of 0..2 (thorough: 0..3) report blocks over 17 block choices (the 7 defined kinds, unknown types 0, 8, 255 with different contents, empty and longer lists, other flag combinations) and walks each encoding with an independent block walker; McWireXr sweeps the XR star domain")
 
-prop("C16", lambda t, s: [("mc", "UnitsMc", "McUnitsThorough"), ("mc", "Mc", "McWireUnits"), ("mc", "Mc", "McWirePairs"), ("drive", "units", n(t, 2000, 50000)), ("drive", "sweeps", n(t, 65537, 1))],
+prop("C16", lambda t, s: [("mc", "UnitsMc", "McUnitsThorough"), ("mc", "Mc", "McWireUnits"), ("mc", "Mc", "McWirePairs"), ("drive", "units", n(t, 2000, 50000)), ("drive", "sweeps", n(t, 65537, 1)), ("mc", "Mc", "McLoose")],
      exhaustive_note="McUnits checks and emits rows of 256 consecutive wire words of the 2^16 tables of run-length chunks, status-vector chunks, 2-octet deltas, metric blocks, RLE chunks and header lengths (all 256 rows of each, in both tiers), the complete 1-octet delta table and the header octet-0 x PT table; the thorough tier adds exhaustive Go sweeps of all 2^24 loss counts, all 2^32 header words, NACK pairs and SLI words (quick: every 65537th)")
 
 prop("C17", lambda t, s: [("mc", "Mc", "McWire"), ("mc", "Mc", "McWirePairs"), ("mc", "Mc", n(t, "McFaults", "McFaults2")), ("mc", "Mc", "McFaultsDev"), ("drive", "strings", n(t, 1500, 60000)), ("drive", "fuzz", n(t, 600, 30000)), ("drive", "cprand", n(t, 200, 10000))],
      exhaustive_note="String(), %v and %+v are applied to every star-domain value, to every packet any decoder accepted from the first-order faulted buffers, to all 256 values of PacketType, SDESType, BlockTypeType and TTLorHopLimitType, to all 2^16 XR chunks, and to REMB bitrates at every power of two and ten")
 
 prop("C18", lambda t, s: [("mc", "ConcurrencyMc", "McConc"), ("mc_broken", "ConcurrencyMc", "McConcBroken"), ("mc", "Mc", n(t, "McHist", "McHist4")),
-                          ("drive", "histrand", n(t, 600, 30000)), ("conc", n(t, 2, 40)), ("conc", n(t, 2, 40)), ("conc", n(t, 2, 40))],
+                          ("drive", "histrand", n(t, 600, 30000)), ("conc", n(t, 2, 40)), ("conc", n(t, 2, 40)), ("conc", n(t, 2, 40)), ("drive", "recombine", n(t, 200, 10000)), ("drive", "errpaths", n(t, 400, 20000))],
      exhaustive_note="McConc enumerates every interleaving of 3 goroutines x 2 calls (Begin/End steps) over 2 shared and 2 private packet values; McHist every call history of up to 3 (thorough: 4) calls out of 9 operations on 13 packet values; real schedules are sampled under the race detector",
      assumptions=["the Go race detector reports only the races that occur in the sampled schedules"])
 
 # vacuity guard: the least number of distinct behaviours each configuration must emit for replay
-MIN_BEHAVIOURS = {"McTwcc3": 3500, "McWirePairs": 1100, "McFaultsDev": 400, "McWire": 900, "McFaults": 3000, "McFaults2": 20000, "McLimits": 80, "McVariants": 250, "McForeign": 800, "McDispatch": 3000,
-                  "McDispatchAll": 30000, "McDgram": 600, "McDgram3": 10000, "McCompound": 2000, "McCompound4": 30000, "McNack": 5000,
+MIN_BEHAVIOURS = {"McLoose": 100, "McTwcc3": 3500, "McWirePairs": 1100, "McFaultsDev": 400, "McWire": 900, "McFaults": 3000, "McFaults2": 20000, "McLimits": 80, "McVariants": 250, "McForeign": 800, "McDispatch": 3000,
+                  "McDispatchAll": 30000, "McDgram": 600, "McDgram3": 10000, "McCompound": 5000, "McCompound4": 50000, "McNack": 5000,
                   "McNackThorough": 15000, "McTwcc": 7000, "McTwccThorough": 50000, "McRemb": 2100, "McRembThorough": 5000, "McWireRemb": 100,
                   "McXr": 300, "McXrThorough": 4000, "McWireXr": 180, "McUnits": 200, "McUnitsThorough": 1500, "McWireUnits": 250,
                   "McHist": 5000, "McHist4": 20000}
